@@ -74,6 +74,9 @@ S_OPS = [
     ("H.add_simplices_from([([5, 9], 4, {'w': 1}), ([2, 9], 1, {})])", None),
     ("H.add_simplices_from({5: [1, 9], 1: [2, 8]})", None),
     ("H.add_simplices_from([[1, 2, 3, 4]], max_order=1)", None),
+    ("H.add_simplices_from([([7, 8, 9], 0)])", None),
+    ("H.add_simplices_from([([7, 8, 9], 5, {'w': 1}), ([6, 8, 9], 0, {})])", None),
+    ("H.add_simplices_from({0: [7, 8, 9]})", None),
     ("H.add_weighted_simplices_from([(1, 8, 0.5)])", None),
     ("H.close()", None),
 ]
@@ -176,6 +179,22 @@ def step_fresh(ctx):
                     out.append(("no-warning", f"{ctx.op}: explicit ID already present but no warning", tags))
                 if not C.snap_equal(pre, post):
                     out.append(("refused-changed", f"{ctx.op}: refused explicit ID but the network changed", tags))
+        mb = re.match(r"H\.add_simplices_from\((.*)\)$", ctx.op)
+        if mb and "max_order" not in ctx.op and not ctx.out.raised:
+            try:
+                arg = eval(mb.group(1))
+                recs = [(m_, i_) for i_, m_ in arg.items()] if isinstance(arg, dict) else \
+                    [(r[0], r[1]) for r in arg if isinstance(r, tuple) and len(r) >= 2 and not isinstance(r[1], dict)]
+            except Exception:  # noqa: BLE001
+                recs = []
+            have = set(prem.values())
+            if recs and len(recs) == len(arg) and all(i_ in prem and frozenset(m_) not in have for m_, i_ in recs):
+                # every entry carries an explicit ID that is already taken (and a new node set): all must be refused
+                if not ctx.out.warns:
+                    out.append(("no-warning", f"{ctx.op}: explicit IDs already present but no warning", tags))
+                if not C.snap_equal(pre, post):
+                    out.append(("refused-changed", f"{ctx.op}: every explicit ID was already taken, yet the network changed: "
+                                f"{C.snap_diff(pre, post)}", tags))
         ex = set()
         for tok in re.findall(r"\], (-?\d+|'\w+')", ctx.op) + re.findall(r"idx=([^,)]+)", ctx.op) + re.findall(r"(\d+): \[", ctx.op):
             try:
